@@ -25,7 +25,7 @@ def demo():
     if '-fsanitize=address' in hdr: san = '-fsanitize=address'
     if '-fsanitize=thread' in hdr: san = '-fsanitize=thread'
     import re as _re
-    extra = ' '.join(sorted(set(_re.findall(r'-Wl,[^ \\\n]+', hdr))))
+    extra = ' '.join(sorted(set(_re.findall(r'-Wl,[^ \\\n]+', hdr)))) + (' -lcrypto' if '-lcrypto' in hdr else '')
     if os.path.exists(O + '/demo.sh'):
         rc, out = sh('sh %s/demo.sh' % O, timeout=1200)
         return rc, out[-1500:], 'sh demo.sh'
